@@ -8,6 +8,8 @@ search:          the property itself evaluated on the real outputs
 import math
 from fractions import Fraction
 
+import os
+
 import numpy as np
 
 import common
@@ -16,7 +18,7 @@ import gen_c16
 THEOREMS = ['C16_range', 'C16_inverse', 'C16_untouched', 'C16_length', 'C16_gap', 'C16_gap_is_max', 'C16_sort_sorted', 'C16_sort_perm', 'C16_float_range', 'C16_float_legacy_leaves_cube']
 TIE_THEOREMS = ['C16_tie_shiftQ', 'C16_tie_shiftF', 'C16_tie_wrapGap', 'C16_tie_centre']
 MODULE = [('NautilusVerif.Properties.C16', THEOREMS), ('NautilusVerif.Properties.C16Tie', TIE_THEOREMS)]
-FILES = ['nautilus/bounds/periodic.py']
+FILES = ['nautilus/bounds/periodic.py', 'nautilus/bounds/nautilus.py']
 
 
 def me(x):
@@ -164,11 +166,23 @@ def check_multi(chk, rng, n_cases):
         ps.periodic = np.array(periodic)
         ps.centers = np.array(centres)
         pts = rng.random((12, n_dim))
+        # the inverse applied by a bound restored from a checkpoint must undo the shift as well (odd cases: the shift that undoes
+        # is a copy written to and read from an in-memory HDF5 group)
+        ps_back = ps
+        if case % 2:
+            try:
+                import h5py
+                with h5py.File('c16-%d.h5' % os.getpid(), 'w', driver='core', backing_store=False) as f:
+                    ps.write(f.create_group('s'))
+                    ps_back = PhaseShift.read(f['s'])
+            except Exception as e:
+                chk.fail('shift-write-read-raises:' + type(e).__name__, 'writing and reading a PhaseShift raised %s: %s' % (type(e).__name__, str(e)[:100]),
+                         {'input': {'periodic': [int(x) for x in periodic]}})
         for inverse in (False, True):
             out = ps.transform(pts, inverse=inverse)
-            back = ps.transform(out, inverse=not inverse)
+            back = ps_back.transform(out, inverse=not inverse)
             info = {'periodic': [int(x) for x in periodic], 'centres': [float(c).hex() for c in centres],
-                    'inverse': inverse}
+                    'inverse': inverse, 'undone_by_read_back_copy': bool(case % 2)}
             if out.shape != pts.shape:
                 chk.fail('transform-mutates-or-reshapes', 'shape changed', {'input': info})
                 continue
@@ -278,6 +292,78 @@ def check_compute(chk, rng, n):
     return dis
 
 
+def check_bound_level(chk, rng, n):
+    """the shift as `NautilusBound.compute` installs it: the construction points of the bound are `points[log_l >= log_l_min]`
+    (the rows its ellipsoids are built from); after the bound's shift their largest empty gap must lie across the boundary in every
+    periodic dimension.  Clouds include likelihood plateaus exactly at the threshold and a threshold equal to one point's value."""
+    import warnings
+    from nautilus.bounds import NautilusBound
+    n_eval = 0
+    for k in range(n):
+        d = int(rng.integers(2, 4))
+        kind = k % 4
+        m = int(rng.integers(60, 140))
+        pts = rng.random((m, d))
+        pts[:, 1:] = np.clip(rng.normal(0.5, 0.08, (m, d - 1)), 0.01, 0.99)
+        periodic = [[0], [1], [1, 0], [d - 1, 0]][k % 4 if d > 2 else k % 3]
+        pd = periodic[0]
+        if kind == 0:      # plateau exactly at the threshold, wrapping the boundary and wider than half the period, narrower peak on top
+            centre = float(rng.random())
+            n_pl = m // 2
+            pts[:n_pl, pd] = (centre + rng.uniform(-0.32, 0.32, n_pl)) % 1.0
+            pts[n_pl:, pd] = (centre + 0.22 + rng.normal(0, 0.02, m - n_pl)) % 1.0
+            log_l = np.where(np.arange(m) < n_pl, -3.0, -3.0 + rng.random(m) + 0.1)
+            log_l_min = -3.0
+        elif kind == 1:    # wrapped peak, threshold equal to the value of an isolated point on the other side
+            pts[:, pd] = rng.normal(0.0, 0.05, m) % 1.0
+            log_l = -0.5 * (np.minimum(pts[:, pd], 1 - pts[:, pd]) / 0.05) ** 2
+            j = int(np.argmin(log_l))
+            pts[j, pd] = (0.5 + rng.uniform(-0.05, 0.05)) % 1.0
+            log_l[j] = np.sort(log_l)[m // 3]
+            log_l_min = float(log_l[j])
+        elif kind == 2:    # two plateaus at the threshold on either side of the boundary
+            side = rng.random(m) < 0.5
+            pts[:, pd] = np.where(side, rng.uniform(0.0, 0.12, m), rng.uniform(0.8, 1.0, m))
+            log_l = np.where(rng.random(m) < 0.6, -1.0, -1.0 + rng.random(m))
+            log_l_min = -1.0
+        else:              # generic cloud, continuous likelihood
+            pts[:, pd] = rng.normal(rng.random(), 0.1, m) % 1.0
+            log_l = rng.normal(0, 1, m)
+            log_l_min = float(np.sort(log_l)[m // 4])
+        pts = np.clip(pts, 0.0, np.nextafter(1.0, 0))
+        info = {'seed': int(chk.seed), 'case': k, 'periodic': periodic, 'kind': kind, 'n_points': m, 'n_dim': d}
+        try:
+            with warnings.catch_warnings():
+                warnings.simplefilter('ignore')
+                b = NautilusBound.compute(pts, log_l, log_l_min, -5.0, n_networks=0, periodic=np.array(periodic), n_points_min=d + 4,
+                                          rng=np.random.default_rng(k))
+        except Exception as e:
+            chk.fail('bound-with-periodic-raises:' + type(e).__name__, 'NautilusBound.compute with periodic=%r raised %s: %s' % (
+                periodic, type(e).__name__, str(e)[:100]), {'input': info})
+            continue
+        sel = pts[log_l >= log_l_min]
+        out = b.shift.transform(sel)
+        n_eval += 1
+        for dim in periodic:
+            g = exact_max_gap([float(x) for x in sel[:, dim]])
+            lo, hi = Fraction(float(np.min(out[:, dim]))), Fraction(float(np.max(out[:, dim])))
+            tol = Fraction(8, 2 ** 53)
+            if lo < g / 2 - tol or hi > 1 - g / 2 + tol:
+                chk.fail('gap-not-across-boundary:bound', 'NautilusBound.compute(periodic=%r): after the bound\'s shift the largest empty gap of its '
+                         'construction points (log_l >= log_l_min) in dimension %d is not across the boundary (gap %.3f, shifted range [%.3f, %.3f])' % (
+                             periodic, dim, float(g), float(lo), float(hi)),
+                         {'input': dict(info, points=[[float(x).hex() for x in r] for r in pts], log_l=[float(x).hex() for x in log_l],
+                                        log_l_min=float(log_l_min).hex())})
+                break
+        for dim in range(d):
+            if dim not in periodic and not np.array_equal(out[:, dim], sel[:, dim]):
+                chk.fail('non-periodic-coordinate-changed:bound', 'the shift of a NautilusBound with periodic=%r modifies coordinate %d' % (periodic, dim),
+                         {'input': info})
+                break
+    chk.extra['bound_level_cases'] = n_eval
+    return n_eval
+
+
 def run(chk):
     rng = np.random.default_rng(1600 + chk.seed)
     text, notes = gen_c16.generate(common.REPO)
@@ -292,6 +378,7 @@ def run(chk):
     dis_t = check_transform(chk, rng, nc, npc)
     dis_c = check_compute(chk, rng, ncl)
     dis_m = check_multi(chk, rng, 40 if chk.tier == 'quick' else 400)
+    check_bound_level(chk, np.random.default_rng(1650 + chk.seed), 24 if chk.tier == 'quick' else 240)
     chk.cov['disagreements_checked'] = len(dis_t) + len(dis_c) + len(dis_m)
     if dis_m:
         keys = {f['key'] for f in chk.failing}
